@@ -8,6 +8,7 @@ require (
 	github.com/jrhy/mast v1.2.33
 	github.com/jrhy/s3db v0.0.0
 	github.com/mattn/go-sqlite3 v1.14.49
+	golang.org/x/crypto v0.55.0
 	google.golang.org/protobuf v1.36.12
 )
 
@@ -20,7 +21,6 @@ require (
 	github.com/ryszard/goskiplist v0.0.0-20150312221310-2dfbae5fcf46 // indirect
 	github.com/segmentio/ksuid v1.0.4 // indirect
 	go.riyazali.net/sqlite v0.0.0-20250204091031-8aa392720bb1 // indirect
-	golang.org/x/crypto v0.55.0 // indirect
 	golang.org/x/sys v0.47.0 // indirect
 )
 
